@@ -2243,3 +2243,5 @@ M("c12-buckets-share-template", "C12", "m3/reporter.go",
   "	for i, pair := range tally.BucketPairs(buckets) {\n		var (\n			counter = r.allocateCounter(name, nil)\n			hbucket = cachedHistogramBucket{", "	counter := r.allocateCounter(name, nil)\n	for i, pair := range tally.BucketPairs(buckets) {\n		var (\n			hbucket = cachedHistogramBucket{", expect="O4b bucket-own-template")
 M("c16-binary-empty-list-rejected", "C16", "thirdparty/github.com/apache/thrift/lib/go/thrift/binary_protocol.go",
   "func (p *TBinaryProtocol) ReadListBegin() (elemType TType, size int, err error) {\n	b, e := p.ReadByte()\n	if e != nil {\n		err = NewTProtocolException(e)\n		return\n	}\n	elemType = TType(b)\n	size32, e := p.ReadI32()\n	if e != nil {\n		err = NewTProtocolException(e)\n		return\n	}\n	if size32 < 0 {", "func (p *TBinaryProtocol) ReadListBegin() (elemType TType, size int, err error) {\n	b, e := p.ReadByte()\n	if e != nil {\n		err = NewTProtocolException(e)\n		return\n	}\n	elemType = TType(b)\n	size32, e := p.ReadI32()\n	if e != nil {\n		err = NewTProtocolException(e)\n		return\n	}\n	if size32 <= 0 {", expect="O8 size-guards")
+M("c10-timer-alloc-panic-swallowed", "C10", "scope.go",
+  "		cachedTimer = s.cachedReporter.AllocateTimer(\n			s.fullyQualifiedName(name), s.tags,\n		)", "		func() {\n			defer func() { _ = recover() }()\n			cachedTimer = s.cachedReporter.AllocateTimer(\n				s.fullyQualifiedName(name), s.tags,\n			)\n		}()", expect="O8 no-swallowed-panic")
